@@ -565,7 +565,13 @@ pub struct C03 {
 	htlcs: BTreeMap<(ChannelId, usize, u64), Htlc>,
 	/// terminal events (id, is_sent) handled in the lineage of the running manager
 	handled: BTreeSet<([u8; 32], bool)>,
-	snap_handled: BTreeMap<u64, BTreeSet<([u8; 32], bool)>>,
+	/// per manager snapshot: (handled, handled while no monitor update of S was in flight, updates in flight)
+	snap_handled: BTreeMap<u64, (BTreeSet<([u8; 32], bool)>, BTreeSet<([u8; 32], bool)>, Vec<(ChannelId, u64)>)>,
+	handled_durable: BTreeSet<([u8; 32], bool)>,
+	handled_batch: BTreeMap<([u8; 32], bool), u64>,
+	batch: u64,
+	await_first_batch: bool,
+	first_batch_after_restart: Option<u64>,
 	/// (step, snapshot step) of S's restarts
 	pub restarts: Vec<(u64, u64)>,
 	closed_s_chans: BTreeSet<ChannelId>,
@@ -589,6 +595,11 @@ impl C03 {
 			htlcs: BTreeMap::new(),
 			handled: BTreeSet::new(),
 			snap_handled: BTreeMap::new(),
+			handled_durable: BTreeSet::new(),
+			handled_batch: BTreeMap::new(),
+			batch: 0,
+			await_first_batch: false,
+			first_batch_after_restart: None,
 			restarts: vec![],
 			closed_s_chans: BTreeSet::new(),
 			any_chan_closed: false,
@@ -603,7 +614,10 @@ impl C03 {
 	fn snapshot(&mut self, sim: &mut Sim) {
 		sim.snapshot_manager(S);
 		let step = sim.snapshots[S].last().unwrap().0;
-		self.snap_handled.insert(step, self.handled.clone());
+		if sim.w.pending_updates(S).is_empty() {
+			self.handled_durable = self.handled.clone();
+		}
+		self.snap_handled.insert(step, (self.handled.clone(), self.handled_durable.clone(), sim.w.pending_updates(S)));
 	}
 
 	fn label(&mut self, l: &str) {
@@ -852,6 +866,13 @@ impl C03 {
 		self.cur_s = sim.log.len();
 		for (at, ev) in evs {
 			self.failure_step = at;
+			// a batch = the events one process_events call of S handed out
+			if !matches!(ev, SEvent::Ldk { node: S, .. }) {
+				self.batch += 1;
+			} else if self.await_first_batch {
+				self.await_first_batch = false;
+				self.first_batch_after_restart = Some(self.batch);
+			}
 			match ev {
 				SEvent::Emit { from, to, wire } => match &wire {
 					Wire::Add(m) => {
@@ -932,15 +953,25 @@ impl C03 {
 						}
 					}
 				},
-				SEvent::Restart { node: S, snapshot_step, ok, .. } => {
+				SEvent::Restart { node: S, snapshot_step, ok, monitor_ids, .. } => {
 					if !ok {
 						continue;
 					}
 					self.stats.restarts += 1;
 					self.restarts.push((at, snapshot_step));
-					if let Some(h) = self.snap_handled.get(&snapshot_step) {
-						self.handled = h.clone();
+					// "handled and persisted": the manager snapshot was written after the event was handled and the
+					// monitor images used contain every update that was in flight when it was written (handling a
+					// terminal event issues a monitor update of its own; with asynchronous persistence it can be lost)
+					if let Some((h, hd, inflight)) = self.snap_handled.get(&snapshot_step) {
+						let covered = inflight.iter().all(|(c, id)| monitor_ids.iter().any(|(mc, mid)| mc == c && mid >= id));
+						self.handled = if covered { h.clone() } else { hd.clone() };
+						if !covered {
+							self.stats.labels.insert("restart-lost-inflight-monitor-update".to_string());
+						}
 					}
+					self.handled_durable = self.handled.clone();
+					self.await_first_batch = true;
+					self.first_batch_after_restart = None;
 					let mut stale = false;
 					for m in self.meta.iter_mut() {
 						if m.api_ok && m.send_step > snapshot_step {
@@ -993,6 +1024,9 @@ impl C03 {
 				_ => {},
 			}
 		}
+		if sim.w.pending_updates(S).is_empty() {
+			self.handled_durable = self.handled.clone();
+		}
 		// (e) a payment the restarted node no longer lists has no HTLC in flight, now or later
 		let absent: Vec<usize> = (0..self.meta.len()).filter(|i| self.meta[*i].absent_since.is_some()).collect();
 		if !absent.is_empty() {
@@ -1035,7 +1069,13 @@ impl C03 {
 					return Err(fail("contradictory-terminal-events", format!("PaymentSent for pay#{} at step {} after PaymentFailed at step {:?}", i, at, m.failed_obs)).with_key("contradictory-terminal-events/sent-after-failed"));
 				}
 				// (d) one terminal event unless the running manager comes from a snapshot that had not handled it
-				if self.handled.contains(&(m.id.0, true)) {
+				// (what a reloaded manager regenerates from its monitors can come on top of a copy that was still
+				// queued in the snapshot: both then arrive in the first batch after the restart, neither handled before)
+				let first_batch_dup = self.first_batch_after_restart == Some(self.batch) && self.handled_batch.get(&(m.id.0, true)) == Some(&self.batch);
+				if first_batch_dup {
+					self.stats.labels.insert("terminal-event-twice-in-first-batch-after-restart".to_string());
+				}
+				if self.handled.contains(&(m.id.0, true)) && !first_batch_dup {
 					let restarted = self.restarts.iter().any(|r| r.0 > *m.sent_obs.last().unwrap_or(&0));
 					return Err(fail(
 						"duplicate-terminal-event",
@@ -1060,6 +1100,7 @@ impl C03 {
 				}
 				m.sent_obs.push(at);
 				self.handled.insert((m.id.0, true));
+				self.handled_batch.insert((m.id.0, true), self.batch);
 			},
 			Event::PaymentFailed { payment_id, payment_hash, reason } => {
 				self.stats.failed += 1;
@@ -1082,7 +1123,11 @@ impl C03 {
 					)
 					.with_key(if stale { "contradictory-terminal-events/failed-after-sent/manager-snapshot-predates-sent" } else { "contradictory-terminal-events/failed-after-sent" }));
 				}
-				if self.handled.contains(&(m.id.0, false)) {
+				let first_batch_dup = self.first_batch_after_restart == Some(self.batch) && self.handled_batch.get(&(m.id.0, false)) == Some(&self.batch);
+				if first_batch_dup {
+					self.stats.labels.insert("terminal-event-twice-in-first-batch-after-restart".to_string());
+				}
+				if self.handled.contains(&(m.id.0, false)) && !first_batch_dup {
 					let restarted = self.restarts.iter().any(|r| r.0 > *m.failed_obs.last().unwrap_or(&0));
 					return Err(fail(
 						"duplicate-terminal-event",
@@ -1136,8 +1181,9 @@ impl C03 {
 				let m = &mut self.meta[i];
 				m.failed_obs.push(at);
 				self.handled.insert((m.id.0, false));
+				self.handled_batch.insert((m.id.0, false), self.batch);
 			},
-			Event::PaymentPathFailed { payment_hash, path, short_channel_id, failure, .. } => {
+			Event::PaymentPathFailed { payment_hash, path, short_channel_id, failure, error_code, payment_failed_permanently, .. } => {
 				self.stats.path_failed += 1;
 				// (g) the named channel lies at or next to the node that generated the failure
 				let first = path.hops[0].short_channel_id;
@@ -1191,14 +1237,15 @@ impl C03 {
 					}
 					match short_channel_id {
 						Some(x) => ok |= adj.contains(x),
-						// a failure of the recipient itself (or a bad-onion report) names no channel
-						None => ok |= k == path.hops.len() || malformed,
+						// a failure of the recipient itself names no channel; neither does a BADONION report (the
+						// library then only fills `network_update`)
+						None => ok |= k == path.hops.len() || malformed || error_code.map(|c| c & 0x8000 != 0).unwrap_or(false),
 					}
 				}
 				if !ok {
 					return Err(fail(
 						"path-failure-misattributed",
-						format!("PaymentPathFailed at step {} names channel {:?}; path nodes {:?} over channels {:?}; the failure was generated by node(s) {:?}", at, short_channel_id, nodes, path.hops.iter().map(|h| h.short_channel_id).collect::<Vec<_>>(), origins),
+						format!("PaymentPathFailed at step {} names channel {:?} (onion error code {:?}, permanent {}, {:?}); path nodes {:?} over channels {:?}; the failure was generated by node(s) {:?}", at, short_channel_id, error_code, payment_failed_permanently, failure, nodes, path.hops.iter().map(|h| h.short_channel_id).collect::<Vec<_>>(), origins),
 					));
 				}
 				self.stats.path_failed_attributed += 1;
